@@ -128,7 +128,15 @@ func (c *c06) Run(cs core.Case) core.Result {
 		nVolFiles = 1
 	}
 	sort.Ints(exps)
-	foreign := par2rw.BuildSet(set.SliceSize, []par2rw.InFile{{Name: "foreign.bin", Data: scen.Garbage(rng, 3*set.SliceSize+1)}})
+	// the other recovery set whose packets are interleaved: its files have names
+	// and sizes this reader would not accept in its OWN set (a dot file, an
+	// empty file) - they are none of its business
+	foreign := par2rw.BuildSet(set.SliceSize, []par2rw.InFile{
+		{Name: "foreign.bin", Data: scen.Garbage(rng, 3*set.SliceSize+1)},
+		{Name: ".profile", Data: scen.Garbage(rng, set.SliceSize+3)},
+		{Name: "empty.txt", Data: []byte{}},
+		{Name: "../elsewhere/x", Data: scen.Garbage(rng, 5)},
+	})
 
 	// index file
 	idxPk := []par2rw.Packet{ref.MainPacket()}
@@ -195,7 +203,21 @@ func (c *c06) Run(cs core.Case) core.Result {
 		if p.Fixed == "volume-without-main" {
 			withCritical = false
 		}
-		if withCritical {
+		if withCritical && rng.Intn(4) == 0 && len(ref.Files) >= 2 {
+			// the main packet, but not every file's description and checksum
+			// packet is repeated in this recovery file
+			features["volume-with-partial-critical"] = true
+			pk = append(pk, ref.MainPacket())
+			skip := rng.Intn(len(ref.Files))
+			for i := range ref.Files {
+				if i != skip {
+					pk = append(pk, ref.DescPacket(i))
+				}
+				if i != (skip+1)%len(ref.Files) {
+					pk = append(pk, ref.IFSCPacket(i))
+				}
+			}
+		} else if withCritical {
 			pk = append(pk, ref.Critical()...)
 			if rng.Intn(3) == 0 || p.Fixed == "dup-main-in-volume" {
 				features["dup-main-in-volume"] = true
